@@ -8,6 +8,13 @@ macro_rules! common_list {
             "or" => a | b,
             "xor" => a ^ b,
             "not" => !a,
+            "and_refs" => (&a & &b, a & &b, &a & b),
+            "or_refs" => (&a | &b, a | &b, &a | b),
+            "xor_refs" => (&a ^ &b, a ^ &b, &a ^ b),
+            "not_ref" => !&a,
+            "and_assign" => { let mut x = a; x &= b; let mut y = a; y &= &b; (x, y) },
+            "or_assign" => { let mut x = a; x |= b; let mut y = a; y |= &b; (x, y) },
+            "xor_assign" => { let mut x = a; x ^= b; let mut y = a; y ^= &b; (x, y) },
             "count_ones" => a.count_ones(),
             "count_zeros" => a.count_zeros(),
             "leading_zeros" => a.leading_zeros(),
